@@ -49,6 +49,8 @@ where
                 if !fn_id_seen {
                     fn_ids_seen[fn_id_next.index()] = true;
 
+                    #[cfg(feature = "verif_hooks")]
+                    crate::verif_hooks::path_check();
                     let are_connected = has_path_connecting(&*graph, fn_id, fn_id_next, None);
                     if !are_connected {
                         // Check if the parameters required by the functions conflict.
